@@ -715,11 +715,40 @@ func (x *Exec) load(s *State, fr *Frame, addr Value, in ssa.Instruction) Value {
 	if addr.Loc == nil && addr.Global == nil {
 		x.safeNil(s, fr, addr, in.Pos(), in)
 	}
+	if g := addr.Global; g != nil && len(x.spec.Frame) > 0 && g.Pkg != nil && strings.HasPrefix(g.Pkg.Pkg.Path(), repoModule) {
+		// shared mutable state: a package-level variable of reference type is a backing store that every caller
+		// (and every returned result built from it) aliases
+		if et := g.Type().(*types.Pointer).Elem(); hasRefType(et, 0) {
+			x.oblige(s, "frame", fmt.Sprintf("frame.global.%s@%s#%s", g.Name(), shortFn(fnKey(fr.fn)), x.siteOrdinal(fr.fn, in)), TFalse, x.spec.Frame, in.Pos(),
+				"reads package-level variable "+g.Name()+" of reference type (shared backing store; results built from it alias each other)")
+		}
+	}
 	l := x.ptrLoc(s, addr)
 	x.guardCheck(s, fr, l, false, in)
 	v := x.readLoc(s, l)
 	x.notePointer(s, v)
 	return v
+}
+
+// hasRefType: does a value of type t contain a pointer, slice, map, channel or function (interfaces excluded:
+// package-level sentinel errors are interface values)?
+func hasRefType(t types.Type, depth int) bool {
+	if depth > 6 {
+		return true
+	}
+	switch u := types.Unalias(t).Underlying().(type) {
+	case *types.Pointer, *types.Slice, *types.Map, *types.Chan, *types.Signature:
+		return true
+	case *types.Struct:
+		for i := 0; i < u.NumFields(); i++ {
+			if hasRefType(u.Field(i).Type(), depth+1) {
+				return true
+			}
+		}
+	case *types.Array:
+		return hasRefType(u.Elem(), depth+1)
+	}
+	return false
 }
 
 // guardCheck: guarded-by discipline (C17). A field declared `guarded ... by mu` is read only with
@@ -1310,6 +1339,30 @@ func (x *Exec) doReturn(s *State, fr *Frame, rs []Value, in *ssa.Return) bool {
 }
 
 func (x *Exec) bindResult(s *State, fr *Frame, v *ssa.Call, rs []Value) {
+	if len(rs) > 0 {
+		name := ""
+		if v.Call.IsInvoke() {
+			name = v.Call.Method.Name()
+		} else if callee := v.Call.StaticCallee(); callee != nil {
+			name = callee.Name()
+		}
+		if name != "" {
+			if s.lastCall == nil {
+				s.lastCall = map[string][]Value{}
+			}
+			s.lastCall[name] = append([]Value{}, rs...)
+			// Receiver.Method
+			if sig := v.Call.Signature(); sig != nil && sig.Recv() != nil {
+				rt := sig.Recv().Type()
+				if p, ok := types.Unalias(rt).(*types.Pointer); ok {
+					rt = p.Elem()
+				}
+				if nt, ok := types.Unalias(rt).(*types.Named); ok {
+					s.lastCall[nt.Obj().Name()+"."+name] = s.lastCall[name]
+				}
+			}
+		}
+	}
 	switch len(rs) {
 	case 0:
 	case 1:
